@@ -1,10 +1,52 @@
 package main
 
 import (
+	"bytes"
 	"go/ast"
+	"go/printer"
 	"go/token"
 	"strings"
 )
+
+// source text of an expression (one line)
+func c08Src(fset *token.FileSet, e ast.Node) string {
+	var b bytes.Buffer
+	_ = printer.Fprint(&b, fset, e)
+	return strings.Join(strings.Fields(b.String()), " ")
+}
+
+// all calls `name(...)` in fn, as source text
+func c08CallsSrc(fset *token.FileSet, fn *ast.FuncDecl, name string) []string {
+	var r []string
+	if fn == nil {
+		return []string{"MISSING"}
+	}
+	ast.Inspect(fn, func(n ast.Node) bool {
+		if c, ok := n.(*ast.CallExpr); ok && exprString(c.Fun) == name {
+			r = append(r, c08Src(fset, c))
+		}
+		return true
+	})
+	return r
+}
+
+// method `name` with receiver type `recv` (pointer or value)
+func c08Method(f *ast.File, recv, name string) *ast.FuncDecl {
+	for _, d := range f.Decls {
+		fd, ok := d.(*ast.FuncDecl)
+		if !ok || fd.Name.Name != name || fd.Recv == nil || len(fd.Recv.List) == 0 {
+			continue
+		}
+		t := fd.Recv.List[0].Type
+		if st, ok := t.(*ast.StarExpr); ok {
+			t = st.X
+		}
+		if id, ok := t.(*ast.Ident); ok && id.Name == recv {
+			return fd
+		}
+	}
+	return nil
+}
 
 func init() { extractors["C08"] = extractC08 }
 
@@ -79,7 +121,8 @@ func c08Calls(fn *ast.FuncDecl, prefix string) []string {
 
 func extractC08() *lean {
 	l := newLean("C08")
-	_, st := parseFile("network/dag/state.go")
+	stFset, st := parseFile("network/dag/state.go")
+	_, nw := parseFile("network/network.go")
 	_, tr := parseFile("network/dag/tree/tree.go")
 	_, ib := parseFile("network/dag/tree/iblt.go")
 	_, dg := parseFile("network/dag/dag.go")
@@ -165,5 +208,40 @@ func extractC08() *lean {
 	l.def("treeStoreWriteCalls", "List String", leanStrList(tw), tw)
 	cp := c08Calls(funcDecl(cs, "checkPage"), "f.state.xorTree.")
 	l.def("checkPageTreeCalls", "List String", leanStrList(cp), cp)
+
+	// wiring: who loads the state at start-up, who starts the repair loop, what the loop calls, how the trees are set up,
+	// what Diagnostics reports
+	strs := func(name string, v []string) { l.def(name, "List String", leanStrList(v), v) }
+	strs("networkConfigureStateCalls", c08Calls(c08Method(nw, "Network", "Configure"), "n.state."))
+	strs("networkStartStateCalls", c08Calls(c08Method(nw, "Network", "Start"), "n.state."))
+	strs("stateConfigureCalls", c08Calls(c08Method(st, "state", "Configure"), "s."))
+	strs("stateStartRepairCalls", c08Calls(c08Method(st, "state", "Start"), "s.xorTreeRepair."))
+	strs("repairLoopCalls", c08Calls(c08Method(cs, "xorTreeRepair", "start"), "f."))
+	strs("condsCheckPage", c08Conds(funcDecl(cs, "checkPage")))
+	strs("signalCalls", append(c08Calls(c08Method(st, "state", "IncorrectStateDetected"), "s."), c08Calls(c08Method(st, "state", "CorrectStateDetected"), "s.")...))
+	strs("newStateTreeStores", c08CallsSrc(stFset, funcDecl(st, "NewState"), "newTreeStore"))
+	var diag []string
+	if fd := c08Method(st, "state", "Diagnostics"); fd != nil {
+		ast.Inspect(fd, func(n ast.Node) bool {
+			if cl, ok := n.(*ast.CompositeLit); ok && strings.HasSuffix(c08Src(stFset, cl.Type), "GenericDiagnosticResult") {
+				diag = append(diag, c08Src(stFset, cl))
+			}
+			return true
+		})
+	} else {
+		diag = []string{"MISSING"}
+	}
+	strs("diagnosticsEntries", diag)
+	dgFset, dg2 := parseFile("network/dag/dag.go")
+	var stat []string
+	if fd := funcDecl(dg2, "statistics"); fd != nil {
+		ast.Inspect(fd, func(n ast.Node) bool {
+			if as, ok := n.(*ast.AssignStmt); ok && len(as.Lhs) == 1 && exprString(as.Lhs[0]) == "result.NumberOfTransactions" {
+				stat = append(stat, c08Src(dgFset, as.Rhs[0]))
+			}
+			return true
+		})
+	}
+	strs("statisticsCountSource", stat)
 	return l
 }
